@@ -652,7 +652,14 @@ func ruleDialectData(c *Ctx, rule string, withLayout bool) []*dialectDef {
 			r.Check(len(probs) == 0, rule, key, m.pos, fmt.Sprintf("id %d, %d/%d bytes, CRC_EXTRA %d", m.id, m.sizeN, m.sizeX, m.crc), strings.Join(probs, "; "))
 		}
 	}
-	r.Check(nGolden >= 1500, rule, "golden CRC_EXTRA coverage", "-", fmt.Sprintf("%d listed standard messages compared with the published table", nGolden), fmt.Sprintf("only %d comparisons with the published table", nGolden))
+	r.Notes = append(r.Notes, fmt.Sprintf("%s: %d dialect packages, %d listed messages evaluated, %d comparisons with the published CRC_EXTRA table", rule, len(dps), func() int {
+		n := 0
+		for _, d := range out {
+			n += len(d.msgs)
+		}
+		return n
+	}(), nGolden))
+	r.Check(nGolden >= 1760, rule, "golden CRC_EXTRA coverage", "-", fmt.Sprintf("%d listed standard messages compared with the published table", nGolden), fmt.Sprintf("only %d comparisons with the published table (1773 on the reference tree): a standard message lost its id or its definition package", nGolden))
 	return out
 }
 
